@@ -687,6 +687,8 @@ class DiskHarness(object):
         self.fd_tmp = {}
         self.fds = set()         # every descriptor handed to the code under test and not yet closed
         self.gate_reads = False  # also gate the completion of every aio_read (silent yield point)
+        self.write_rule = None   # (m, r, em, er): short writes / write errors of the stubbed aio_write
+        self.write_faults = []
         self.on_effect = None
 
     # -- life cycle
@@ -817,6 +819,19 @@ class DiskHarness(object):
 
     def _aio_write(self, fd, piece, offset, callback):
         data = bytes(piece)
+        if self.write_rule is not None and data and not self.quiet:
+            # what this asynchronous write does (same rule as E_Disk.rule_fault): an error,
+            # a short write of (n+1)//2 bytes, or everything
+            m, r, em, er = self.write_rule
+            key = self.fd_tmp.get(fd, 0) + offset
+            if em and key % em == er:
+                import errno
+                self.write_faults.append(('error', self.fd_tmp.get(fd, -1), offset))
+                callback(-1, errno.EFBIG if key % 2 else errno.ENOSPC)
+                return
+            if m and key % m == r and (len(data) + 1) // 2 < len(data):
+                self.write_faults.append(('short', self.fd_tmp.get(fd, -1), offset, (len(data) + 1) // 2, len(data)))
+                data = data[:(len(data) + 1) // 2]
         try:
             self.effect(('write', self.fd_tmp.get(fd, -1), offset, data))
         except _Enospc:
